@@ -57,6 +57,8 @@ type dvSim struct {
 	advFetch map[int][]simeng.Expressed
 	nFetch   int
 	nNoFetch int
+	holdPfx  bool
+	heldPfx  []func()
 }
 
 // face returns the id of the face at a towards b (changes when the link is re-created).
@@ -171,8 +173,39 @@ func (s *dvSim) onExpress(from *dvNode, x simeng.Expressed) {
 		if err != nil {
 			return
 		}
-		x.Callback(ndn.ExpressCallbackArgs{Result: ndn.InterestResultData, Data: d, RawData: enc.Wire{raw}, SigCovered: cov})
+		deliver := func() {
+			x.Callback(ndn.ExpressCallbackArgs{Result: ndn.InterestResultData, Data: d, RawData: enc.Wire{raw}, SigCovered: cov})
+		}
+		s.mu.Lock()
+		if s.holdPfx { // a slow reply: produced now, delivered when the harness releases it
+			s.heldPfx = append(s.heldPfx, deliver)
+			s.mu.Unlock()
+			return
+		}
+		s.mu.Unlock()
+		deliver()
 	}()
+}
+
+// holdPrefixReplies makes prefix-table replies slow: they are produced when the Interest reaches
+// the owner but delivered only by releasePrefixReplies.
+func (s *dvSim) holdPrefixReplies(on bool) {
+	s.mu.Lock()
+	s.holdPfx = on
+	s.mu.Unlock()
+}
+
+func (s *dvSim) releasePrefixReplies() (int, bool) {
+	s.mu.Lock()
+	l := s.heldPfx
+	s.heldPfx = nil
+	s.mu.Unlock()
+	for _, f := range l {
+		f()
+	}
+	ok := s.quiesce()
+	s.drain()
+	return len(l), ok
 }
 
 func (s *dvSim) connected(a, b int) bool {
